@@ -1063,6 +1063,47 @@ def section_methods(env, ctx, model):
                 ctx.disagree("block.getitem", {"n": n, "k": k}, show_impl(impl), mi)
 
 
+def section_slices(env, ctx, model):
+    """`x[start:stop:step]` against the model (`getSlice`): exhaustive over n <= 4, start/stop in {None, -6..6}, step in
+    {None, -3..3} in the thorough tier, a random sample of it in the quick tier"""
+    rng = ctx.rng
+    vals = [None] + list(range(-6, 7))
+    steps = [None] + list(range(-3, 4))
+    combos = [(n, a, b, st) for n in range(0, 5) for a in vals for b in vals for st in steps]
+    if not ctx.thorough:
+        combos = [combos[int(i)] for i in rng.permutation(len(combos))[:500]] + [(3, None, 2, None), (3, 1, None, None), (4, None, None, -1), (2, None, None, 0)]
+    xs = {n: env.BlockArray([env.jnp.full((i + 1,), float(i)) for i in range(n)]) for n in range(0, 5)}
+    for n, a, b, st in combos:
+        req = {"n": n}
+        for k, v in (("start", a), ("stop", b), ("step", st)):
+            if v is not None:
+                req[k] = v
+        try:
+            mi = ("ok", model.call("getslice", **req))
+        except ModelErr as e:
+            mi = ("err", e.kind)
+        x = xs[n]
+        impl = impl_call(lambda: x[slice(a, b, st)], [], {})
+        ctx.case({"section": "slice", "n": n, "slice": f"{a}:{b}:{st}"}, ("slice", n, a, b, st) if n >= 2 else None)
+        ctx.count(f"slice:model={'err:' + mi[1] if mi[0] == 'err' else 'ok/len=' + str(len(mi[1]))}")
+        if mi[0] == "err":
+            good = impl == ("err", mi[1])
+        else:
+            good = impl[0] == "ok" and isinstance(impl[1], env.BlockArray) and len(impl[1].arrays) == len(mi[1]) and all(r is x.arrays[i] for r, i in zip(impl[1].arrays, mi[1]))
+        if not good:
+            def slice_oracle(c, impl=impl, n=n, a=a, b=b, st=st, x=x):
+                # a block array behaves as the tuple of its blocks: python's own slicing of the block list
+                try:
+                    want = list(x.arrays)[slice(a, b, st)]
+                except Exception:  # noqa: BLE001
+                    return None if impl[0] == "err" else {"expr": f"x[{a}:{b}:{st}]", "n_blocks": n, "scico_result": show_impl(impl), "expected": "error (as for a list)"}
+                if impl[0] == "ok" and isinstance(impl[1], env.BlockArray) and len(impl[1].arrays) == len(want) and all(r is w for r, w in zip(impl[1].arrays, want)):
+                    return None
+                return {"expr": f"x[{a}:{b}:{st}]", "n_blocks": n, "scico_result": show_impl(impl), "expected_blocks": [int(w[0]) for w in want]}
+
+            ctx.disagree("block.getslice", {"section": "slice", "n": n, "start": a, "stop": b, "step": st}, show_impl(impl), mi, oracle=slice_oracle)
+
+
 def section_wrappers(env, ctx, model):
     """the wrappers applied to an arbitrary python function with random positional / keyword mixes"""
     rng = ctx.rng
@@ -1657,7 +1698,7 @@ def correspond(ctx, model):
     env = Env()
     timing = {}
     for sec in (run_corpus, section_names, section_reductions, section_creation, section_operators, section_methods,
-                section_wrappers, section_pytree, section_transparency, section_trees, section_setitem, section_random):
+                section_slices, section_wrappers, section_pytree, section_transparency, section_trees, section_setitem, section_random):
         t0 = time.time()
         try:
             sec(env, ctx, model)
@@ -1755,6 +1796,20 @@ def search(ctx, model, why):
         # a structural obligation on the tables broke: try the documented reduction / creation behaviour directly
         jnp, snp, BA = env.jnp, env.snp, env.BlockArray
         x = BA([jnp.array([[1.0, 2.0], [3.0, 4.0]]), jnp.array([5.0, 6.0, 7.0])])
+        # lifted attributes: the promised ones and every public attribute of the jax array type the rule selects
+        try:
+            attrs = translate_lists.read_attr_tables()
+            promised = ["shape", "size", "ndim", "T", "real", "imag", "ravel", "reshape", "conj", "conjugate", "astype", "sum", "flatten", "copy", "transpose"]
+            for nm in promised + [k for k, p, c in attrs["members"] if (p or c) and k not in ("at",)]:
+                try:
+                    getattr(x, nm)
+                except AttributeError:
+                    return {"attribute": nm, "on": "BlockArray([2x2, (3,)])", "outcome": "AttributeError",
+                            "expected": "lifted from the jax array type: the tuple / block array of the per-block values", "per_block_jax": be.describe([getattr(b, nm) for b in x.arrays]) if nm in ("shape", "size", "ndim") else "…"}
+                except Exception:  # noqa: BLE001
+                    pass
+        except common.Infra:
+            pass
         for name in t["reduction_functions"]:
             raw, f = be.getpath(jnp, name), be.getpath(snp, name)
             for kw in ({}, {"axis": 0}):
@@ -1789,11 +1844,14 @@ def search(ctx, model, why):
             case = {"section": "search", "kind": "map", "fn": fn_id, "args": [jsonable(a) for a in args], "kwargs": {k: jsonable(v) for k, v in kwt.items()}}
             r = oracle(case)
             if r is not None:
-                a0 = [x.arrays[0] if isinstance(x, env.BlockArray) else x for x in args]
-                try:
-                    multi = isinstance(raw(*a0, **kwt), (tuple, list))
-                except Exception:  # noqa: BLE001
-                    multi = False
+                multi = False
+                nb = max([len(x) for x in args if isinstance(x, env.BlockArray)] + [0])
+                for bi in range(nb):
+                    ab = [x.arrays[bi] if isinstance(x, env.BlockArray) else x for x in args]
+                    try:
+                        multi = multi or isinstance(raw(*ab, **kwt), (tuple, list))
+                    except Exception:  # noqa: BLE001
+                        pass
                 if multi and ctx.is_known(KNOWN_TUPLE):
                     ctx.known_finding(KNOWN_TUPLE, True)  # several outputs per block: recorded finding
                     ctx.count("search:multi-output-function (known finding)")
